@@ -38,7 +38,7 @@ Definition check_functor_case (c : tr) : bool :=
       | Some qb', Some s', Some ctor', Some ov', Some ie', Some lates', Some cl', Some ovo', Some ieo' =>
           match functor_ctor s' ctor' ov' ie' with
           | Ok st =>
-              match late_all_n {| q_noop_rebind := qb' |} s' st lates' with
+              match late_all_u {| q_noop_rebind := qb' |} s' st lates' with
               | Ok st1 =>
                   let st2 := if Z.eqb post 1 then clone_state st1 else if Z.eqb post 2 then json_state s' st1 else st1 in
                   gen_agrees s' st2 cl' ovo' ieo'
